@@ -166,4 +166,16 @@ CHECKS = {
         "note": "Trusted: scipy ConvexHull volume. Orientation of the tetrahedra is not constrained by the statement (sphere/ellipsoid/cube are wound negatively; recorded in the evidence).",
         "technique": "exhaustive enumeration of factory parameter lattices on the real code vs determinant/hull-volume/analytic-shape reference",
     },
+    "C15": {
+        "text": ("(a) 3 reference tetrahedra (right corner, regular, sliver) x 3 partner tetrahedra x 26 rotations (all 24 cube rotations: faces "
+                 "parallel to the contact plane) x 125 lattice translations (shared faces, containment, touching) x 3 Young's modulus pairs, "
+                 "intersect_tetrahedron_pair in both argument orders; (b) 36 factory body pairs x 6 placements (axis-aligned stacking, deep, "
+                 "offset, side, touching, separated) x orientations x moved frames, every reported tetrahedron pair of find_contact_surface. "
+                 "Per polygon: vertices on the plane and inside both tetrahedra (independent barycentric solve >= -1e-9), convex, area = "
+                 "reported area, force along the normal with non-negative pressure, same polygon (as a point set) for swapped order; separated "
+                 "bodies: no intersection, zero wrenches."),
+        "design_ref": "DESIGN.md 5 C15",
+        "note": "Order dependence is only judged for polygons of area > 1e-6 (the library's own intersection tolerance); KF-C15-coincident-face-order matched by exact state.",
+        "technique": "bounded-exhaustive enumeration of tetrahedron-pair and body-pair placements on the real code vs independent barycentric/plane/convexity checks",
+    },
 }
